@@ -54,7 +54,16 @@ def check_trace(trace, S, res: Result | None = None):
     if not ref_rows:
         return viols, ('nochange',)
     try:
-        df = impl.real_events(trace)
+        st_in, in_in = impl.arrays(trace)
+        st0, in0 = st_in.copy(), in_in.copy()
+        from gemdat.transitions import _calculate_transition_events
+
+        df = _calculate_transition_events(atom_sites=st_in, atom_inner_sites=in_in)
+        df2 = _calculate_transition_events(atom_sites=st_in, atom_inner_sites=in_in)
+        if not (np.array_equal(st_in, st0) and np.array_equal(in_in, in0)):
+            viols.append(('event-builder-modifies-its-input', ''))
+        if impl.event_rows(df2) != impl.event_rows(df):
+            viols.append(('event-builder-not-repeatable', ''))
     except Exception as e:  # noqa: BLE001 - the property says building never fails
         only_inner = not hop.outer_change_times(trace)
         kind = f'events-raise-{type(e).__name__}' + ('-inner-only-history' if only_inner else '')
@@ -105,6 +114,9 @@ def check_trace(trace, S, res: Result | None = None):
             viols.append(('states-prev-wrong', f'got={np.asarray(p).tolist()} expected={rp}'))
         if not np.array_equal(np.asarray(n), np.array(rn)):
             viols.append(('states-next-wrong', f'got={np.asarray(n).tolist()} expected={rn}'))
+        o_ref, i_ref = hop.state_arrays(trace)
+        if not np.array_equal(np.asarray(tr.states), np.array(o_ref)) or impl.event_rows(tr.events) != rows:
+            viols.append(('views-modify-states-or-events', ''))
     except Exception as e:  # noqa: BLE001
         viols.append((f'prev-next-raise-{type(e).__name__}', str(e)))
     return viols, key
